@@ -133,8 +133,8 @@ theorem step_spec (s : State) (e : Nat) (now off : Int) (w pw : F64) :
     · right
       have hm' : 0 ≤ timeSub now (syncEpoch s e).t0 := by omega
       cases hd : lt (durationSeconds (timeSub now (syncEpoch s e).t)) fzero
-      · right; left; simp [hm, hm', hd]
-      · left; simp [hm, hm', hd]
+      · right; left; simp [hm, hm']
+      · left; simp [hm, hm']
   · right; right; right; right; right; right; right; right; right; right; right
     simp only [s0] at h0 h1 h2 h3 ⊢
     simp [h0, h1, h2, h3]
@@ -589,7 +589,7 @@ theorem intCast_abs_le {n : Int} {m : Nat} (h : n.natAbs ≤ m) : ((n : Int) : R
   · rw [← Rat.intCast_neg]; exact intCast_le_lit (by omega)
   · exact intCast_le_lit (by omega)
 
-theorem ofInt_exact {n : Int} (h : n.natAbs ≤ 2 ^ 53) :
+theorem ofInt_small {n : Int} (h : n.natAbs ≤ 2 ^ 53) :
     ofInt n = if n = 0 then .zero false else .fin (n : Rat) := by
   unfold ofInt
   by_cases h0 : n = 0
@@ -618,8 +618,8 @@ theorem durationSeconds_finite {d : Int} (h : minI64 ≤ d ∧ d ≤ maxI64) :
     · have : Int.tmod d 1000000000 = -((-d) % 1000000000) := by
         rw [← Int.tmod_eq_emod_of_nonneg (by omega), Int.neg_tmod, Int.neg_neg]
       rw [this]; omega
-  rw [ofInt_exact (n := Int.tdiv d 1000000000) (by omega),
-    ofInt_exact (n := Int.tmod d 1000000000) (by omega), ofInt_second]
+  rw [ofInt_small (n := Int.tdiv d 1000000000) (by omega),
+    ofInt_small (n := Int.tmod d 1000000000) (by omega), ofInt_second]
   generalize Int.tdiv d 1000000000 = q at *
   generalize Int.tmod d 1000000000 = r at *
   have hqa := intCast_abs_le (m := 9223372037) hq
@@ -965,8 +965,8 @@ theorem durationSeconds_absBd {d : Int} (h : minI64 ≤ d ∧ d ≤ maxI64) :
     · have : Int.tmod d 1000000000 = -((-d) % 1000000000) := by
         rw [← Int.tmod_eq_emod_of_nonneg (by omega), Int.neg_tmod, Int.neg_neg]
       rw [this]; omega
-  rw [ofInt_exact (n := Int.tdiv d 1000000000) (by omega),
-    ofInt_exact (n := Int.tmod d 1000000000) (by omega), ofInt_second]
+  rw [ofInt_small (n := Int.tdiv d 1000000000) (by omega),
+    ofInt_small (n := Int.tmod d 1000000000) (by omega), ofInt_second]
   generalize Int.tdiv d 1000000000 = q at *
   generalize Int.tmod d 1000000000 = r at *
   have hqa := intCast_abs_le (m := 9223372037) hq
